@@ -284,6 +284,14 @@ class Run:
                 return None
             model_lines = (d / "model.txt").read_text().split("\n")
         ndiff = 0
+        ctx = {}
+        if (d / "ctx.txt").exists():
+            for line in (d / "ctx.txt").read_text().splitlines():
+                k, _, t = line.partition("\t")
+                try:
+                    ctx[int(k)] = json.loads(t)
+                except Exception:
+                    pass
         with open(ops) as fo, open(impl) as fi:
             for k, (op, im) in enumerate(zip(fo, fi)):
                 op, im = op.rstrip("\n"), im.rstrip("\n")
@@ -292,7 +300,10 @@ class Run:
                     ndiff += 1
                     if ndiff <= 25:
                         head = op.split(" ", 1)[0]
-                        self.problems.append(Problem("diff", head, {"stream": name, "op": op, "impl": im, "model": mo}, concrete=True,
+                        detail = {"stream": name, "op": op, "impl": im, "model": mo}
+                        if k in ctx:
+                            detail["context"] = ctx[k]
+                        self.problems.append(Problem("diff", head, detail, concrete=True,
                                                      signature="diff:" + head))
         laws = []
         for line in (d / "laws.txt").read_text().splitlines():
